@@ -109,7 +109,7 @@ def classes(case):
 @st.composite
 def big_cases(draw):
     """Models of several hundred features (files of tens of kilobytes): block-wise or incremental readers/writers."""
-    return {"model": draw(S.model_specs(S.UVL, 80, 140)), "cycles": 3}
+    return {"model": draw(S.model_specs(S.UVL, 80, 140, many_ctcs=draw(st.booleans()))), "cycles": 3}
 
 
 SUBS = [
